@@ -24,6 +24,8 @@ pub enum Step {
     /// stray directory under sqpack/, name given as hex bytes (may be non-UTF-8)
     StrayDir { name_hex: String },
     StrayFile { path: String, len: usize },
+    /// the version file of the base game (0) or of expansion N rewritten with these bytes
+    VersionText { exp: u8, hex: String },
     Reopen { id: u32 },
     IndexOpen { id: u32, file: String },
     DatRead { id: u32, file: String, offset: u64 },
@@ -175,7 +177,25 @@ pub fn generate(seed: u64, tier: Tier) -> Doc {
         Step::Query { id: *id, kind, path }
     };
     for _ in 0..n_steps {
-        match r.below(20) {
+        match r.below(21) {
+            20 => {
+                let exp = if install.repos.is_empty() { 0 } else { r.pick(&install.repos).exp };
+                let bytes: Vec<u8> = match r.below(4) {
+                    0 => vec![],
+                    1 => crate::rng::fill_bytes(r.range(1, 60) as usize, r.next_u64() & !3),
+                    _ => {
+                        // valid UTF-8 of any length with multi-byte characters anywhere
+                        let mut t = String::new();
+                        for _ in 0..r.below(48) {
+                            t.push(*r.pick(&['2', '0', '.', '1', 'a', ' ', '\n', '\r', '\u{e9}', '\u{6f22}', '\u{1f600}']));
+                        }
+                        t.into_bytes()
+                    }
+                };
+                steps.push(Step::VersionText { exp, hex: crate::formats::hex(&bytes) });
+                id += 1;
+                steps.push(Step::Reopen { id });
+            }
             0..=8 => steps.push(q(&mut r, &lay, &damaged_files, &mut id)),
             9..=13 if !lay.files.is_empty() => {
                 let (path, bytes, fields, bounds) = r.pick(&lay.files);
@@ -477,6 +497,20 @@ pub fn directed() -> Vec<Doc> {
         steps.extend(all_queries(50));
         push(steps, vec![], &mut out);
     }
+    // version files that are valid UTF-8 with one multi-byte character starting at every byte
+    // position (cutting or slicing text by a byte count is only safe on character boundaries)
+    for exp in [0u8, 1] {
+        for ch in ["\u{e9}", "\u{6f22}", "\u{1f600}"] {
+            for k in 0..44usize {
+                let t = format!("{}{}{}", "2012.01.01.0000.0000.2012.01.01.0000.0000.20".get(..k).unwrap_or(""), ch, "12.01");
+                for text in [t.as_bytes(), t[..k + ch.len()].as_bytes()] {
+                    let mut steps = vec![Step::VersionText { exp, hex: crate::formats::hex(text) }, Step::Reopen { id: 50 }];
+                    steps.push(Step::Query { id: 51, kind: QKind::Exists, path: if exp == 0 { "chara/a/std.bin".into() } else { "bg/ex1/x.bin".into() } });
+                    push(steps, vec![], &mut out);
+                }
+            }
+        }
+    }
     // hostile completions during reassembly and during discovery
     for (call, nth, kind) in [
         (Call::Read, 30u32, Hostile::Eio),
@@ -746,6 +780,13 @@ fn run_archive(h: &mut Harness, doc: &Doc, install: &InstallSpec, steps: &[Step]
                     h.at_rest[8] += 1;
                 }
             }
+            Step::VersionText { exp, hex } => {
+                let p = if *exp == 0 { format!("{}/ffxivgame.ver", GAME) } else { format!("{}/sqpack/ex{}/ex{}.ver", GAME, exp, exp) };
+                if *exp == 0 || h.fs.h_exists(&format!("{}/sqpack/ex{}", GAME, exp)) {
+                    h.fs.h_write(&p, crate::formats::unhex(hex));
+                    h.at_rest[8] += 1;
+                }
+            }
             Step::Reopen { id } => {
                 if !damaged.is_empty() {
                     h.probe(16);
@@ -823,6 +864,7 @@ fn run_archive(h: &mut Harness, doc: &Doc, install: &InstallSpec, steps: &[Step]
             Step::ToDir { .. } => 51,
             Step::StrayDir { .. } => 52,
             Step::StrayFile { .. } => 53,
+            Step::VersionText { .. } => 57,
             Step::Reopen { .. } => 54,
             Step::IndexOpen { .. } => 55,
             Step::DatRead { .. } => 56,
